@@ -498,3 +498,432 @@ def install(reg, src):
             return False
         return isinstance(a, SName) and isinstance(b, Opaque) and a.t.eq(FN(b.ref))
     reg.lp_solver = dict(LPFEAS=LPFEAS)
+    install_scipy(reg, src)
+    reg.lp_mentions, reg.lp_names_of_filter = mentions, names_of_filter
+    install_scipy_main(reg, src)
+
+
+# ======================================================================================= solve_scipy
+def install_scipy(reg, src):
+    from .compiler_c import NV, IDXS, DOMOF, make_index_map, index_map_of_varlist, names_of_varlist, compiled_fn, point_for
+    from .seqtheory import named_exists, named_forall, seqs, _once, skolem, add_index
+    FN = sym.fn("F_name", sym.Ref, sym.Name)
+    EXPRF = lambda sp: sp.S.F("expr", sym.Ref)
+    NEGOBJ = sym.fn("NEGOBJ", sym.Ref, sym.Ref)        # the tree  -objective  built for maximisation (UnaryOp neg)
+
+    def arbitrary_exception(ip, where, is_exc=None):
+        e_ = sym.fresh("exc_is_Exception", sym.B)
+        if is_exc is not None:
+            ip.path.assume(e_ == z3.BoolVal(is_exc))
+
+        def isinst(name):
+            if name == "BaseException":
+                return z3.BoolVal(True)
+            if name == "Exception":
+                return e_
+            return sym.fresh(f"exc_is_{name}", sym.B)
+        return ExcVal("?", (), {"isinstance": isinst, "where": where, "is_exception": e_})
+
+    def objective_ref(ip, sp, s0):
+        """the expression the solver minimises: obj, or UnaryOp(obj, 'neg') for maximise (allocated by the code as -obj)"""
+        return s0.obj
+
+    def solver_cache_for(ip, sp, P, s0, vbase):
+        """What _build_solver_cache promises for the current model (C09 wiring vocabulary)."""
+        IDX = sym.fn("IDX_OF", sym.Ref, IDXS)(vbase)
+        n = sym.fn("LEN_any", sym.Ref, sym.I)(vbase)
+        ip.path.assume(DOMOF(IDX) == NAMES_OF(vbase))
+        ip.path.assume(NV(IDX) == n)
+        V = ip.schema.seq_of_base(ip, vbase, "Variable")
+        obj = Opaque(s0.obj, "Expression")
+        ismax = s0.sense == sym.lit("maximize")
+
+        def env_of(x):
+            if x.envlink is None:
+                x.envlink = (IDX, sym.fresh("ENV_x", sym.EnvSort), ip.path)
+            return x.envlink[1]
+
+        def obj_fn(ip2, x):
+            sp2 = Spec(ip2)
+            E = env_of(x)
+            d = sp2.den(obj, E, sp2.PV)
+            return SReal(z3.If(ismax, -d, d), "npfloat")
+
+        def grad_fn(ip2, x):
+            sp2 = Spec(ip2)
+            E = env_of(x)
+            arr = sym.fresh("gradrow", sym.RealArr)
+            # 1 x n Jacobian of the (signed) objective; entry j is the partial derivative w.r.t. V_j (C03 contract)
+            def elem(k):
+                kt = k if not isinstance(k, int) else z3.IntVal(k)
+                dv = sp2.dv(obj, FN(V.get(kt).ref), E, sp2.PV)
+                return SReal(z3.If(ismax, -dv, dv), "npfloat")
+            row = SSeq(n, elem, "ndarray", "jacobian-row")
+            return SpecFn(None, "jacobian 1xn", meta={"methods": {"flatten": lambda ip3: row}, "row": row})
+        cons_n = s0.ncon
+        CONTYPE = sym.fn("SCIPY_CONTYPE", sym.Ref, sym.Name)
+
+        def con_dict(k):
+            kt = k if not isinstance(k, int) else z3.IntVal(k)
+            cref = z3.Select(s0.cons, kt)
+            e_ = Opaque(sp.S.F("expr", sym.Ref)(cref), "Expression")
+            sense = sp.S.F("sense", sym.Name)(cref)
+            typ = SName(z3.If(sense == sym.lit("=="), sym.lit("eq"), sym.lit("ineq")))
+
+            def fun(ip2, x):
+                sp2 = Spec(ip2)
+                E = env_of(x)
+                d = sp2.den(e_, E, sp2.PV)
+                return SReal(z3.If(sense == sym.lit("<="), -d, d), "float")
+            items = {"type": typ, "fun": SpecFn(fun, "constraint fun"), "jac": SpecFn(None, "constraint jac")}
+            return SpecFn(None, "scipy-constraint", meta={"getitem": lambda ip2, key: items[key], "con_index": kt})
+        cons = SSeq(cons_n, con_dict, "list", "scipy_constraints", tag=("scipy_constraints", s0.cons))
+        bounds = SSeq(n, lambda k: (bound_lo(ip, V.get(k)), bound_hi(ip, V.get(k))), "list", "bounds")
+        d = PDict()
+        d.items["obj_fn"] = SpecFn(obj_fn, "obj_fn")
+        d.items["grad_fn"] = SpecFn(grad_fn, "grad_fn")
+        d.items["scipy_constraints"] = cons
+        d.items["bounds"] = bounds
+        return d, IDX, n
+
+    def bound_lo(ip, v):
+        lb = ip.getattr(v, "lb")
+        return SpecFn(None, "lb-or--inf", meta={"opt": lb, "inf": "-inf"})
+
+    def bound_hi(ip, v):
+        ub = ip.getattr(v, "ub")
+        return SpecFn(None, "ub-or-inf", meta={"opt": ub, "inf": "inf"})
+
+    @reg.contract(f"{SC}:_build_solver_cache", props=["C09", "C10", "C12"],
+                  bounded="builds the SciPy constraint dict list in a loop with default-argument lambdas; the compiled objective / "
+                          "Jacobian it stores come from compile_expression / compile_jacobian (contracts C01/C03); exercised by "
+                          "the bounded stand-in")
+    def _(c):
+        sp = Spec(c.ip)
+        ip = c.ip
+        P = c.arg("problem", T.obj("Problem", exact=True))
+        vs = c.arg("variables")
+        s0 = PState(ip, P)
+        vbase = varlist_base(s0)
+        d, IDX, n = solver_cache_for(ip, sp, P, s0, vbase)
+        ip.path.ghost["scipy_ctx"] = {"IDX": IDX, "n": n, "vbase": vbase, "cache": d}
+        c.raises("NoObjectiveError", when=s0.obj_none)
+        c.returns(lambda cc: d)
+
+    @reg.contract(f"{SC}:_compute_initial_point", props=["C09"])
+    def _(c):
+        ip = c.ip
+        vs = c.arg("variables", T.seq(T.obj("Variable", exact=True)))
+        c.arg("problem", T.none(), default=None)
+        S = ip.models.as_seq(vs)
+        n = ip.models.len_term(S.n)
+        c.returns(T.custom(lambda ip_, h: SArr(sym.fresh("x0", sym.RealArr), n=n)))
+
+        def post(res):
+            sk = skolem(ip, "sk_x0", n)
+            ip.reg.index_used(ip, sk)
+            v = S.get(sk)
+            lb, ub = ip.getattr(v, "lb"), ip.getattr(v, "ub")
+            x = z3.Select(res.arr, sk)
+            inr = z3.And(sk >= 0, sk < n)
+            wf = z3.Implies(z3.And(z3.Not(lb.isnone), z3.Not(ub.isnone)), real_term(lb.val) <= real_term(ub.val))
+            return [ip.models.len_term(res.n) == n,
+                    z3.Implies(z3.And(inr, wf, z3.Not(lb.isnone)), x >= real_term(lb.val)),
+                    z3.Implies(z3.And(inr, wf, z3.Not(ub.isnone)), x <= real_term(ub.val))]
+        c.ensures("one finite entry per variable, inside its bounds", post)
+        if c.verifying:
+            def inv(st_):
+                x0 = st_.var("x0")
+                good = named_forall(ip, "X0GOOD", [x0.arr, sym.fn("ELEM_any", sym.Ref, sym.I, sym.Ref)(S.tag[2], z3.IntVal(0))], st_.i, lambda k: z3.BoolVal(True))
+                return []
+            # element-wise postcondition is re-established per iteration through a prefix predicate
+            def inv2(st_):
+                x0 = st_.var("x0")
+                def ok(k):
+                    v = S.get(k)
+                    lb, ub = ip.getattr(v, "lb"), ip.getattr(v, "ub")
+                    x = z3.Select(x0.arr, k)
+                    wf = z3.Implies(z3.And(z3.Not(lb.isnone), z3.Not(ub.isnone)), real_term(lb.val) <= real_term(ub.val))
+                    return z3.Implies(wf, z3.And(z3.Implies(z3.Not(lb.isnone), x >= real_term(lb.val)),
+                                                 z3.Implies(z3.Not(ub.isnone), x <= real_term(ub.val))))
+                good = named_forall(ip, "X0OK", [x0.arr, S.tag[2]], st_.i, ok)
+                return [good(st_.i)]
+            c.loop(1, inv2, havoc={"x0": T.custom(lambda ip_, h: SArr(sym.fresh("x0_loop", sym.RealArr), n=n))})
+    reg.scipy_helpers = dict(solver_cache_for=solver_cache_for, arbitrary_exception=arbitrary_exception)
+
+
+def install_scipy_main(reg, src):
+    from .compiler_c import NV, IDXS, DOMOF
+    from .seqtheory import named_exists, named_forall, seqs, _once, skolem, add_index
+    H = reg.scipy_helpers
+    solver_cache_for, arbitrary_exception = H["solver_cache_for"], H["arbitrary_exception"]
+    FN = sym.fn("F_name", sym.Ref, sym.Name)
+    BOUNDS_METHODS = ("L-BFGS-B", "TNC", "SLSQP", "Powell", "trust-constr", "Nelder-Mead")      # cross-checked against the source below
+    MSG = {"maxiter": ("maximum", "iteration"), "infeasible": ("infeasible",), "pdd": ("positive directional derivative",)}
+    OUT = ["raise-Exception", "raise-BaseException", "success", "fail-maxiter", "fail-infeasible", "fail-pdd", "fail-other"]
+    METHS = ["SLSQP", "trust-constr", "L-BFGS-B", "BFGS", "Nelder-Mead"]
+    COMBOS = [{"method": m, "res": r, "strict": False, "cache": "none", "sense": "minimize", "x0": "none"} for m in METHS for r in OUT]
+    for extra in ({"strict": True}, {"cache": "valid"}, {"sense": "maximize"}, {"x0": "given"}):
+        for r in ("success", "raise-Exception"):
+            for m in ("SLSQP", "trust-constr"):
+                cb = {"method": m, "res": r, "strict": False, "cache": "none", "sense": "minimize", "x0": "none"}
+                cb.update(extra)
+                COMBOS.append(cb)
+
+    def read_set(name):
+        """HESSIAN_METHODS / BOUNDS_METHODS / DERIVATIVE_FREE_METHODS as written in solve_scipy (S16: tables are read)."""
+        fi = src.funcs[f"{SC}:solve_scipy"]
+        for n_ in ast.walk(fi.node):
+            if isinstance(n_, ast.Assign) and isinstance(n_.targets[0], ast.Name) and n_.targets[0].id == name:
+                return tuple(ast.literal_eval(n_.value))
+        return ()
+
+    @reg.external_model("scipy.optimize.minimize")
+    def _(ip, args, kwargs, node):
+        p = ip.path
+        p.event("external-call", {"name": "minimize", "kwargs": dict(kwargs), "args": list(args),
+                                  "showwarning": p.globals.get("warnings.showwarning")})
+        pins = p.ghost.get("pins", {})
+        outcome = pins.get("res")
+        ctx = p.ghost.get("scipy_ctx")
+        if ctx is None:
+            raise Unsupported("minimize reached without a solver cache")
+        rz = sym.fresh("minimize_raises", sym.B)
+        if outcome is not None:
+            p.assume(rz == z3.BoolVal(outcome.startswith("raise")))
+        if p.branch(rz, "minimize raises"):
+            raise RaiseEx(arbitrary_exception(ip, "minimize", None if outcome is None else outcome == "raise-Exception"))
+        n, IDX = ctx["n"], ctx["IDX"]
+        sp = Spec(ip)
+        X = SArr(sym.fresh("res_x", sym.RealArr), n=n, envlink=(IDX, sp.E, p))
+        succ = sym.fresh("res_success", sym.B)
+        fun = sym.fresh("res_fun", sym.R)
+        msg = SStrOpaque(("solver-message",))
+        if outcome is not None:
+            p.assume(succ == z3.BoolVal(outcome == "success"))
+            cls = outcome.split("-", 1)[1] if outcome.startswith("fail-") else None
+            for k, words in MSG.items():
+                for w in words:
+                    flag = ip.schema.str_contains(SStrOpaque(("lower", msg)), w)
+                    if outcome.startswith("fail-"):
+                        p.assume(flag == z3.BoolVal(cls == k))
+        r = {"success": SBool(succ), "x": X, "fun": SReal(fun, "npfloat"), "message": msg, "nit": SInt(sym.fresh("res_nit", sym.I)),
+             "status": SInt(sym.fresh("res_status", sym.I))}
+        # A3: fun is the objective callable at x; with bounds passed and success, x respects them
+        fcall = kwargs.get("fun")
+        fx = ip.call(fcall, [X], {}, node)
+        p.assume(fun == real_term(fx))
+        bnds = kwargs.get("bounds")
+        p.ghost["min_call"] = {"result": r, "X": X, "bounds_passed": bnds is not None, "kwargs": dict(kwargs)}
+        if bnds is not None:
+            BOK = sym.fn("WITHIN_BOUNDS", sym.RealArr, sym.Ref, sym.B)
+            p.assume(z3.Implies(succ, BOK(X.arr, ctx["vbase"])))
+        return SpecFn(None, "OptimizeResult", meta={"attrs": r})
+
+    @reg.contract(f"{SC}:solve_scipy", props=["C06", "C07", "C09", "C18", "C20", "C13", "C10"], cases={"__combos__": COMBOS})
+    def _(c):
+        sp = Spec(c.ip)
+        ip = c.ip
+        P = c.arg("problem", T.obj("Problem", exact=True))
+        ip.path.assume(z3.Select(st(ip, "Problem._constraints!len", sym.I), P.ref) >= 0)
+        if not c.verifying:
+            # recursive retry SLSQP -> trust-constr: the measure is "method is SLSQP"
+            meth = c.arg("method")
+            if meth != "trust-constr" or ip.path.ghost.get("pins", {}).get("method") != "SLSQP":
+                raise Unsupported("solve_scipy contract applied outside the SLSQP -> trust-constr retry")
+            for a_ in ("x0", "tol", "maxiter", "use_hessian", "strict"):
+                c.arg(a_)
+            ip.path.event("retry", {"method": meth})
+            c.may_raise_anything()
+            c.returns(T.obj("Solution", exact=True))
+            c.ensures("retry result is a solve_scipy result", lambda res: sym.fn("RETRY_RESULT", sym.Ref, sym.B)(res.ref))
+            return
+        case = c.case
+        method = c.arg("method", T.const(case["method"]))
+        n_guess = None
+        s0 = PState(ip, P)
+        vb0 = varlist_base(s0)
+        nvars = sym.fn("LEN_any", sym.Ref, sym.I)(vb0)
+        x0 = c.arg("x0", T.const(None) if case["x0"] == "none" else T.custom(lambda ip_, h: SArr(sym.fresh("x0_given", sym.RealArr), n=nvars)))
+        tol = c.arg("tol", T.opt(T.real("float")))
+        maxiter = c.arg("maxiter", T.opt(T.int_()))
+        use_h = c.arg("use_hessian", T.const(True))
+        strict = c.arg("strict", T.const(case["strict"]))
+        ip.path.ghost["pins"] = {"res": case["res"], "method": case["method"]}
+        c.assume(z3.Not(s0.obj_none))      # Problem.solve raises NoObjectiveError before dispatching (its contract)
+        c.assume(s0.sense == sym.lit(case["sense"]))
+        from .specfns import NODIV0
+        EXPR = sp.S.F("expr", sym.Ref)
+        vnone = s0.cache_none["_variables"]
+        cache_base = z3.Select(st(ip, "Problem._variables", sym.Ref), P.ref)
+        c.assume(z3.Implies(z3.Not(vnone), cache_base == vb0))
+        reg.assume_varlist_valid(ip, sp, P, s0, vb0)
+        scnone = s0.cache_none["_solver_cache"]
+        c.assume(scnone if case["cache"] == "none" else z3.Not(scnone))
+        entry_box = z3.simplify(z3.Select(st(ip, "Problem._solver_cache", sym.Ref), P.ref))
+        if case["cache"] == "valid":
+            # Inv (C13): a non-None _solver_cache holds callables denoting the current model
+            d, IDX, n = solver_cache_for(ip, sp, P, s0, vb0)
+            ip.path.ghost.setdefault("boxed", {})[str(entry_box)] = d
+            ip.path.ghost["scipy_ctx"] = {"IDX": IDX, "n": n, "vbase": vb0, "cache": d}
+        entry_show = ip.path.globals.get("warnings.showwarning")
+        c.raises("IntegerVariableError", when=None)
+        c.may_raise_anything()
+        c.returns(T.obj("Solution", exact=True))
+        bounds_methods = read_set("BOUNDS_METHODS")
+        hess_methods = read_set("HESSIAN_METHODS")
+        dfree = read_set("DERIVATIVE_FREE_METHODS")
+
+        # loop 1: feasibility check over the SciPy constraint dicts
+        def violated(k, X):
+            ctx = ip.path.ghost["scipy_ctx"]
+            cref = z3.Select(s0.cons, k)
+            e_ = Opaque(EXPR(cref), "Expression")
+            sense = sp.S.F("sense", sym.Name)(cref)
+            d = sp.den(e_, sp.E, sp.PV)
+            cval = z3.If(sense == sym.lit("<="), -d, d)
+            atol = z3.If(tol.isnone, sym.rv(1e-6), real_term(tol.val))
+            stol = atol + sym.rv(1e-6) * sym.zmax(sym.rv(1.0), sym.zabs(cval))
+            return z3.If(sense == sym.lit("=="), sym.zabs(cval) > stol, cval < -stol)
+
+        def inv1(st_):
+            mc = ip.path.ghost.get("min_call")
+            if mc is None:
+                return []
+            cv = st_.var("constraints_violated")
+            cvt = cv.t if isinstance(cv, SBool) else z3.BoolVal(bool(cv))
+            ex = named_exists(ip, "VIOLBEFORE", [s0.cons, mc["X"].arr], s0.ncon, lambda k: violated(k, mc["X"]))
+            mv = st_.var("max_violation")
+            return [cvt == ex(st_.i), real_term(mv) >= 0]
+        c.loop(1, inv1, havoc={"c_val": T.real("float"), "scaled_tol": T.real("float"), "violation": T.real("float")})
+
+        def events(tag):
+            return [pl for t, pl in ip.path.events if t == tag]
+
+        def on_exit(cc, outcome, val):
+            path = ip.path
+            oid = ip.cur_oid
+            now = PState(ip, P)
+            calls = [e_ for e_ in events("external-call") if e_["name"] == "minimize"]
+            warns = events("warn")
+            retried = bool(events("retry"))
+            # ---------------- C20 / C13 frames on every exit
+            path.oblige(oid("model untouched on every exit"), now.same_model(s0), kind="frame", props=["C13", "C20"])
+            show_now = path.globals.get("warnings.showwarning")
+            path.oblige(oid("warnings.showwarning restored on every exit"), z3.BoolVal(show_now is entry_show or
+                        (entry_show is None and (show_now is None or (hasattr(show_now, "name") and show_now.name == "warnings.showwarning")))),
+                        kind="frame", props=["C20"])
+            box_now = z3.simplify(z3.Select(st(ip, "Problem._solver_cache", sym.Ref), P.ref))
+            built = path.ghost.get("boxed", {}).get(str(box_now))
+            ctx = path.ghost.get("scipy_ctx")
+            if case["cache"] == "none":
+                path.oblige(oid("_solver_cache untouched or assigned the completely built cache"),
+                            z3.Or(now.cache_none["_solver_cache"], z3.BoolVal(built is not None and ctx is not None and built is ctx["cache"])),
+                            kind="frame", props=["C13", "C20"])
+            else:
+                path.oblige(oid("_solver_cache untouched"), z3.And(z3.Not(now.cache_none["_solver_cache"]), box_now == entry_box),
+                            kind="frame", props=["C13", "C20"])
+            other_globals = [pl for t, pl in path.events if t == "global-write" and pl[0] != "warnings.showwarning"]
+            path.oblige(oid("no other process-global state written"), z3.BoolVal(not other_globals), kind="frame", props=["C20"])
+            # ---------------- C18
+            vb = path.ghost.get("lp_vars_filter")
+            if calls:
+                if vb is None:
+                    path.oblige(oid("solver reached only after the integrality check"), False, kind="post", props=["C18"])
+                elif strict is True:
+                    path.oblige(oid("strict: solver not reached with non-continuous variables"), z3.Not(vb["exists"]), kind="post", props=["C18"])
+                else:
+                    named = [w for w in warns if reg.lp_mentions(w["message"], vb["seq"])]
+                    path.oblige(oid("non-strict: warning naming exactly the non-continuous variables before the solver runs"),
+                                z3.Implies(vb["exists"], z3.BoolVal(len(named) >= 1)), kind="post", props=["C18"])
+            if outcome == "raise" and val.cls == "IntegerVariableError":
+                vn = val.kwargs.get("variable_names")
+                okn = vb is not None and isinstance(vn, SSeq) and reg.lp_names_of_filter(vn, vb["seq"])
+                path.oblige(oid("IntegerVariableError lists exactly the non-continuous variables"), z3.BoolVal(bool(okn)), kind="post", props=["C18"])
+                path.oblige(oid("IntegerVariableError only when strict"), z3.BoolVal(strict is True), kind="post", props=["C18"])
+            # ---------------- C09 wiring at the call site
+            if calls and ctx is not None:
+                kw = calls[0]["kwargs"]
+                n, IDX = ctx["n"], ctx["IDX"]
+                d = ctx["cache"]
+                ismax = case["sense"] == "maximize"
+                obj = Opaque(s0.obj, "Expression")
+                Xw = SArr(sym.fresh("xw", sym.RealArr), n=n, envlink=(IDX, sym.fresh("ENV_w", sym.EnvSort), path))
+                Ew = Xw.envlink[1]
+                fv = ip.call(kw["fun"], [Xw], {}, None)
+                dn = sp.den(obj, Ew, sp.PV)
+                path.oblige(oid("wiring: fun is the (sign-adjusted) objective"), real_term(fv) == (-dn if ismax else dn), kind="post", props=["C09"])
+                usegrad = case["method"] not in dfree
+                if usegrad:
+                    jv = ip.call(kw["jac"], [Xw], {}, None)
+                    J = ip.models.as_seq(jv)
+                    skj = skolem(ip, "sk_jac", n)
+                    V = ip.schema.seq_of_base(ip, ctx["vbase"], "Variable")
+                    dvj = sp.dv(obj, FN(V.get(skj).ref), Ew, sp.PV)
+                    path.oblige(oid("wiring: jac is the gradient of that objective in variable order"),
+                                z3.Implies(z3.And(skj >= 0, skj < n), real_term(J.get(skj)) == (-dvj if ismax else dvj)), kind="post", props=["C09"])
+                else:
+                    path.oblige(oid("wiring: derivative-free methods get no jac"), z3.BoolVal(kw.get("jac") is None), kind="post", props=["C09"])
+                wantb = case["method"] in bounds_methods
+                path.oblige(oid("wiring: bounds passed exactly for the methods that support them"),
+                            z3.Implies(n > 0, z3.BoolVal((kw.get("bounds") is d.items["bounds"]) == wantb and (wantb or kw.get("bounds") is None))),
+                            kind="post", props=["C09"])
+                path.oblige(oid("wiring: constraints are the cached SciPy constraint list (or () when empty)"),
+                            z3.BoolVal(kw.get("constraints") is d.items["scipy_constraints"] or kw.get("constraints") == ()), kind="post", props=["C09", "C10"])
+                path.oblige(oid("wiring: method / tol passed through"), z3.BoolVal(kw.get("method") == case["method"] and kw.get("tol") is tol),
+                            kind="post", props=["C09"])
+                wanth = case["method"] in hess_methods
+                path.oblige(oid("wiring: hess passed exactly for the Hessian methods"), z3.BoolVal((kw.get("hess") is not None) == wanth),
+                            kind="post", props=["C09"])
+                if case["x0"] == "given":
+                    path.oblige(oid("wiring: caller's x0 passed"), z3.BoolVal(kw.get("x0") is x0), kind="post", props=["C09"])
+                path.oblige(oid("warning handler installed only around the solver call"),
+                            z3.BoolVal(calls[0]["showwarning"] is not None), kind="post", props=["C20"])
+            if outcome != "return":
+                return
+            sol = val
+            if retried:
+                return        # result of the retry: covered by the obligations of the trust-constr cases
+            if not isinstance(sol, Obj) or sol.cls != "Solution":
+                path.oblige(oid("returns a Solution"), False, kind="post", props=["C06"])
+                return
+            status = sol.fields["status"]
+            is_ = lambda s_: z3.BoolVal(status == s_)
+            mc = path.ghost.get("min_call")
+            if not calls:
+                path.oblige(oid("without a solver run the status is FAILED"), is_("failed"), kind="post", props=["C06", "C20"])
+                return
+            if mc is None:
+                path.oblige(oid("solver raised: the Solution returned is FAILED"), is_("failed"), kind="post", props=["C06", "C20"])
+                return
+            X = mc["X"]
+            succ = mc["result"]["success"].t
+            # ---------------- C06: OPTIMAL => every constraint within tolerance, every bound respected
+            ip.reg.saturate(ip)
+            skc = skolem(ip, "sk_con", s0.ncon)
+            ip.reg.saturate(ip)
+            path.oblige(oid("OPTIMAL => no constraint violated beyond the stated tolerance"),
+                        z3.Implies(z3.And(is_("optimal"), skc >= 0, skc < s0.ncon), z3.Not(violated(skc, X))), kind="post", props=["C06"])
+            BOK = sym.fn("WITHIN_BOUNDS", sym.RealArr, sym.Ref, sym.B)
+            path.oblige(oid("OPTIMAL => every variable bound respected"),
+                        z3.Implies(is_("optimal"), BOK(X.arr, ctx["vbase"])), kind="post", props=["C06"])
+            # ---------------- C07
+            ov = sol.fields.get("objective_value")
+            obj = Opaque(s0.obj, "Expression")
+            path.oblige(oid("objective value = objective expression at the returned values (user orientation)"),
+                        real_term(ov) == sp.den(obj, sp.E, sp.PV), kind="post", props=["C07"])
+            vals = sol.fields.get("values")
+            if isinstance(vals, SDict):
+                V = ip.schema.seq_of_base(ip, ctx["vbase"], "Variable")
+                skv = skolem(ip, "sk_val", ctx["n"])
+                nmk = FN(V.get(skv).ref)
+                ip.reg.saturate(ip)
+                path.oblige(oid("values: one entry per problem variable, in position"),
+                            z3.Implies(z3.And(skv >= 0, skv < ctx["n"]),
+                                       z3.And(z3.Select(vals.keys, nmk), z3.Select(vals.vals, nmk) == z3.Select(X.arr, skv))), kind="post", props=["C07"])
+                nm = NM(ip)
+                path.oblige(oid("values: no entry for other names"),
+                            z3.Implies(z3.Select(vals.keys, nm), z3.Select(NAMES_OF(ctx["vbase"]), nm)), kind="post", props=["C07"])
+            else:
+                path.oblige(oid("values is the per-variable dict"), False, kind="post", props=["C07"])
+        c.on_exit.append(on_exit)
